@@ -70,6 +70,11 @@ CLAIMED["C18"] = ("5/C18",
    "Not covered: mint account empty / supply growth as numbers, long-run schedule. Trusted: bank keeper, epoch hook invoked once per epoch (C17).",
    "SSA origin-term / guard-disjunct / order rules")
 
+CLAIMED["C10"] = ("5/C10",
+   "Static rules over x/twap decide: accumulators advance by the old record's last spot price (P0->P0, P1->P1, log2(P0)->geometric) times the canonical-ms difference between the record's time and the new time; the arithmetic strategy reads the quote side's accumulator; the geometric result is inverted exactly under (negative & quote0) or (non-negative & not quote0) (path-sensitive boolean-join expansion); the three error-flag comparisons exist; zero price stamps the error time; lookup is reverse iteration ending at t; pruning deletes only after skipping the newest record; new records update both indexes.",
+   "Not covered: TWAP = time-weighted mean as a value, min/max bounds, reciprocity, precision (integral over histories). Trusted: Exp2/log2 accuracy, go/ssa.",
+   "SSA origin-term rules + path-sensitive guard disjuncts")
+
 NOT_YET = "check not built yet in this revision (static rule set under construction; see DESIGN.md section 5)"
 
 def main():
